@@ -63,6 +63,7 @@ type c20Case struct {
 	scmpCode       uint8
 	payload        []byte
 	dirty          bool // serialize into a reused buffer holding stale bytes
+	layer          *slayers.SCION // if set: one long-lived layer object whose exported fields are assigned per packet
 }
 
 var c20Dirty = gopacket.NewSerializeBuffer()
@@ -71,6 +72,12 @@ func (c *c20Case) serialize() ([]byte, error) {
 	s := &slayers.SCION{PathType: empty.PathType, Path: empty.Path{},
 		SrcIA: addr.IA(c.srcIA), DstIA: addr.IA(c.dstIA),
 		SrcAddrType: c.srcT, DstAddrType: c.dstT, RawSrcAddr: c.rawSrc, RawDstAddr: c.rawDst}
+	if c.layer != nil {
+		s = c.layer
+		s.PathType, s.Path = empty.PathType, empty.Path{}
+		s.SrcIA, s.DstIA = addr.IA(c.srcIA), addr.IA(c.dstIA)
+		s.SrcAddrType, s.DstAddrType, s.RawSrcAddr, s.RawDstAddr = c.srcT, c.dstT, c.rawSrc, c.rawDst
+	}
 	buf := gopacket.NewSerializeBuffer()
 	if c.dirty {
 		// a reused buffer: gopacket hands out previously used memory in an indeterminate state, the
@@ -148,6 +155,9 @@ func genC20(rt *rapid.T) *c20Case {
 		c.payload = rapid.SliceOfN(rapid.Byte(), n, n).Draw(rt, "payload")
 	}
 	c.dirty = rapid.Bool().Draw(rt, "reusedBuffer")
+	if rapid.Bool().Draw(rt, "reusedLayer") {
+		c.layer = &slayers.SCION{}
+	}
 	c.udp = rapid.Bool().Draw(rt, "udp")
 	if c.udp {
 		c.sport, c.dport = rapid.Uint16().Draw(rt, "sport"), rapid.Uint16().Draw(rt, "dport")
@@ -160,11 +170,11 @@ func genC20(rt *rapid.T) *c20Case {
 func TestC20(t *testing.T) {
 	rec := evid.New("C20", "rapid: SCION address header (random ISD-ASes, IPv4/IPv6/SVC host types and values) x upper layer (UDP with random ports "+
 		"or SCMP with any type/code) x payload length 0..9000 (half forced odd; edge lengths; zero/0xff/random fill); serialized with the repository's "+
-		"encoder; reference one's-complement sum must be 0xFFFF; per case up to 48 single-bit flips spread over all covered regions (all bits for upper "+
+		"encoder (fresh layer object per packet, or one layer object reused for the case and all its flips with its fields assigned); reference one's-complement sum must be 0xFFFF; per case up to 48 single-bit flips spread over all covered regions (all bits for upper "+
 		"layers <= 64 B) must change the reference sum and the re-serialized checksum field. Non-trivial: odd upper-layer length or a non-IPv4 address.")
 	defer rec.Flush(t)
 	rec.Assume("reference sum (refPseudoSum, 25 lines) follows the pseudo header of doc/protocols/scion-header.rst", "upper layer <= 65535 bytes")
-	rec.Require("odd", "even", "udp", "scmp", "addr_ipv6", "addr_svc", "flip_addr", "flip_ia", "flip_payload", "flip_tailbyte")
+	rec.Require("odd", "even", "udp", "scmp", "addr_ipv6", "addr_svc", "flip_addr", "flip_ia", "flip_payload", "flip_tailbyte", "layer_object_reused")
 
 	rapid.Check(t, func(rt *rapid.T) {
 		c := genC20(rt)
@@ -201,6 +211,9 @@ func TestC20(t *testing.T) {
 		}
 		if c.srcT == slayers.T4Svc || c.dstT == slayers.T4Svc {
 			labels = append(labels, "addr_svc")
+		}
+		if c.layer != nil {
+			labels = append(labels, "layer_object_reused")
 		}
 
 		// ---- single-bit flips. Regions: 0 srcIA, 1 dstIA, 2 src addr, 3 dst addr, 4 L4 header fields
